@@ -108,14 +108,131 @@ def r6_3(repo: Repo) -> RuleResult:
     return rr
 
 
-RULES = [r6_1, r6_3]
+# --------------------------------------------------------------------------- R6.2
+def _length_of_return(repo: Repo, f: Func) -> Optional[dict]:
+    """Symbolic length of the array a window function returns, over the atom len(<frequency parameter>)."""
+    import ast as _ast
+    from .. import sym
+
+    env = {}
+    freq = f.params[1]
+    env[freq] = sym.poly(_ast.parse("len(%s)" % freq, mode="eval").body)
+
+    def length(e):
+        if isinstance(e, _ast.Name):
+            return env.get(e.id)
+        if isinstance(e, _ast.Call):
+            canon = repo.canonical(f.module, e.func) or norm(e.func)
+            if canon in ("numpy.power", "numpy.round", "numpy.abs", "numpy.sqrt", "numpy.exp", "numpy.log") and e.args:
+                return length(e.args[0])
+            if canon == "numpy.append" and len(e.args) == 2:
+                a = length(e.args[0])
+                b = length(e.args[1])
+                if a is None:
+                    return None
+                return sym._add(a, b if b is not None else {(): 1})
+            if canon == "numpy.repeat" and len(e.args) == 2:
+                n = e.args[1]
+                return sym.poly(n)
+            if isinstance(e.func, _ast.Attribute) and e.func.attr in ("astype", "copy"):
+                return length(e.func.value)
+            return None
+        if isinstance(e, _ast.BinOp):
+            return length(e.left) or length(e.right)
+        return None
+
+    result = None
+
+    def run(stmts):
+        nonlocal result
+        for st in stmts:
+            if isinstance(st, _ast.Assign) and len(st.targets) == 1 and isinstance(st.targets[0], _ast.Name):
+                l = length(st.value)
+                if l is not None:
+                    env[st.targets[0].id] = l
+                else:
+                    env.pop(st.targets[0].id, None)
+            elif isinstance(st, _ast.If):
+                run(st.body)
+                run(st.orelse)
+            elif isinstance(st, _ast.Return) and st.value is not None:
+                l = length(st.value)
+                result = l if result is None or result == l else "conflict"
+
+    run(f.node.body)
+    return result if isinstance(result, dict) else None
+
+
+def r6_2(repo: Repo) -> RuleResult:
+    import ast as _ast
+    from .. import sym
+    from ..agree import collect_sites
+    from ..model import walk_no_nested, is_self_attr
+    from .common import expand_locals
+
+    rr = RuleResult("R6.2", "skip-gram column ids are decoded with the multiplier they were encoded with", floor=1)
+    SG = "vectorizers/skip_gram_vectorizer.py"
+    enc = repo.func(SG, "skip_grams_matrix_coo_data")
+    c = repo.cls(SG, "SkipgramVectorizer")
+    fit = repo.resolve_method(c, "fit")
+    # encoder: result_col.append(A * n + B)
+    mult = None
+    for n in walk_no_nested(enc.node):
+        if isinstance(n, _ast.Call) and norm(n.func) == "result_col.append" and isinstance(n.args[0], _ast.BinOp) and isinstance(n.args[0].op, _ast.Add):
+            left = n.args[0].left
+            if isinstance(left, _ast.BinOp) and isinstance(left.op, _ast.Mult):
+                mult = expand_locals(left.right, enc, 2)
+    if mult is None:
+        raise AnalysisError("R6.2: encoder expression head * n + tail not found in skip_grams_matrix_coo_data")
+    sites = [s_ for s_ in collect_sites(repo, c, "fit") if s_.callee is enc]
+    if not sites:
+        raise AnalysisError("R6.2: SkipgramVectorizer.fit no longer calls skip_grams_matrix_coo_data")
+    ws = sites[0].raw["window_sizes"]
+    mult_txt = norm(mult).replace("window_sizes", norm(ws))
+    enc_poly = sym.poly(_ast.parse(mult_txt, mode="eval").body)
+    # length fact: len(self._window_sizes) = len(self._token_frequencies_) + 1, derived from every registered window function
+    env = {}
+    assigns = [n for n in walk_no_nested(fit.node) if isinstance(n, _ast.Assign) and norm(n.targets[0]) == norm(ws) and isinstance(n.value, _ast.Call)]
+    if assigns and len(assigns[0].value.args) >= 2:
+        freq_arg = norm(assigns[0].value.args[1])
+        lens = set()
+        for k, g in repo.registry("vectorizers/_window_kernels.py", "_WINDOW_FUNCTIONS").items():
+            l = _length_of_return(repo, g)
+            lens.add(sym.show(l).replace("len(%s)" % g.params[1], "len(%s)" % freq_arg) if l else None)
+        if len(lens) == 1 and None not in lens:
+            env["len(%s)" % norm(ws)] = _ast.parse(lens.pop(), mode="eval").body
+            rr.facts["length_fact"] = "len(%s) = %s (derived from both window functions)" % (norm(ws), norm(env["len(%s)" % norm(ws)]))
+    enc_norm = sym.poly(_ast.parse(mult_txt, mode="eval").body, env)
+    # decoder: raw // M and raw % M
+    mods = []
+    for n in walk_no_nested(fit.node):
+        if isinstance(n, _ast.BinOp) and isinstance(n.op, (_ast.FloorDiv, _ast.Mod)) and norm(n.left) == "raw_val":
+            mods.append(n)
+    if len(mods) != 2:
+        raise AnalysisError("R6.2: decode expressions raw_val // M and raw_val %% M not found in SkipgramVectorizer.fit")
+    for n in mods:
+        m_expr = expand_locals(n.right, fit, 2)
+        dec = sym.poly(m_expr, env)
+        op = "//" if isinstance(n.op, _ast.FloorDiv) else "%"
+        construct = "raw_val %s M" % op
+        if dec == enc_norm:
+            rr.ok(fit, construct, "M = `%s` equals the encoder's multiplier `%s`" % (norm(m_expr), mult_txt), n.lineno)
+        elif norm(m_expr) == "len(self._token_dictionary_)":
+            rr.bad(fit, construct,
+                   "column ids are encoded as head * (%s) + tail but decoded with `%s`: the frequency table is shorter than a supplied "
+                   "dictionary whose last tokens do not occur in the corpus, and every column is then labelled with the wrong pair"
+                   % (mult_txt, norm(m_expr)), n.lineno)
+        else:
+            raise AnalysisError("R6.2: cannot relate the decode modulus `%s` to the encode multiplier `%s`" % (norm(m_expr), mult_txt))
+    return rr
+
+
+RULES = [r6_1, r6_2, r6_3]
 CLAIM = (
-    "R6.1 a small kinds checker infers, from the fit path, whether each fitted dictionary attribute maps labels to indices or "
+    "R6.2 the skip-gram decode modulus equals the encode multiplier (symbolic, with the length fact len(window_sizes) = len(frequencies) + 1 derived from both registered window functions); R6.1 a small kinds checker infers, from the fit path, whether each fitted dictionary attribute maps labels to indices or "
     "indices to labels (dict(zip(A, range)), enumerate comprehensions, items() flips, .copy(), returns of the preprocessing "
     "functions) and requires every other assignment to the same attribute - in particular in NgramVectorizer.__add__ - to have the same kind (and the kind its documented name declares); R6.3 ngrams_of enumerates sequence[i : i + n] for every i with the guard i + n <= len(sequence) (symbolic), subgram lengths 1..n."
 )
 NOT_DECIDED = (
-    "the counts themselves, EdgeList duplicate summation, and the skip-gram encode/decode modulus agreement (R6.2 of the design: "
-    "len(window_sizes) - 1 vs len(token_dictionary) cannot be proved equal mechanically - they differ for a user-supplied dictionary "
-    "with tokens absent from the corpus - so the rule is not armed rather than fed facts by hand)."
+    "the counts themselves and EdgeList duplicate summation."
 )
